@@ -84,6 +84,13 @@ def elementwise(f, *arrs):
         out[idx] = f(*[b[idx] for b in bs])
     if out.ndim == 0:
         return out[()]
+    return _tidy(out)
+
+
+def _tidy(out):
+    """an object array holding only plain bools becomes a real bool array (usable as a mask on any ndarray)"""
+    if out.size and all(isinstance(x, (bool, _np.bool_)) for x in out.flat):
+        return out.astype(bool)
     return out.view(SymArray)
 
 
@@ -108,7 +115,7 @@ def reduce_axis(f, a, axis, keepdims=False):
         out = out.reshape([1 if i in axis else a.shape[i] for i in range(a.ndim)])
     if out.ndim == 0:
         return out[()]
-    return out.view(SymArray)
+    return _tidy(out)
 
 
 def _eq(a, b): return a == b
@@ -415,9 +422,18 @@ def _argmax(a, axis=None, **kw):
     return argmax(a, axis)
 
 
+FORK_ISCLOSE = [False]  # harness switch: decide isclose results by forking (keeps later products linear)
+
+
 @implements(_np.isclose)
 def _isclose(a, b, rtol=1e-5, atol=1e-8, equal_nan=False):
     def f(x, y):
+        r = f0(x, y)
+        if FORK_ISCLOSE[0] and isinstance(r, SymBool):
+            return bool(r)
+        return r
+
+    def f0(x, y):
         if core._is_inf(x) or core._is_inf(y):
             if is_sym(x) or is_sym(y):
                 return False
@@ -577,8 +593,15 @@ def _unique(a, axis=None, **kw):
 @implements(_np.einsum)
 def _einsum(*args, **kw):
     kw.pop('optimize', None)
+    out = kw.pop('out', None)
     a2 = [(_o(x) if isinstance(x, _np.ndarray) else x) for x in args]
-    return _wrap(_np.einsum(*a2, **kw))
+    if any(isinstance(x, _np.ndarray) and x.dtype == object for x in a2):
+        a2 = [(x.astype(object) if isinstance(x, _np.ndarray) and x.dtype != object else x) for x in a2]
+    r = _np.einsum(*a2, **kw)
+    if out is not None:
+        _np.ndarray.__setitem__(out.view(_np.ndarray), Ellipsis, r)
+        return out
+    return _wrap(r)
 
 
 @implements(_np.isin)
